@@ -269,8 +269,8 @@ def gen_config(rng, for_sessions=False, allow_malformed=True, braces=None, env_t
             executor2['path'] = p2
         if for_sessions:
             # the scripted Popen must be able to tell the executors apart
-            executor['args'] = 'x0x' + (' ' + executor['args'] if executor.get('args') else '')
-            executor2['args'] = 'x1x' + (' ' + text(2) if rng.random() < 0.4 else '')
+            executor['args'] = 'Q0Q' + (' ' + executor['args'] if executor.get('args') else '')
+            executor2['args'] = 'Q1Q' + (' ' + text(2) if rng.random() < 0.4 else '')
         elif rng.random() < 0.5:
             executor2['args'] = text(3)
 
